@@ -508,8 +508,11 @@ func (c *Context) onRestart(message *RestartMessage, behavior vivid.Behavior) {
 	// 	return
 	// }
 
-	// 标记正在重启
-	atomic.StoreInt32(&c.state, killing) // 取代上方 CAS 注释
+	// 标记正在重启：仅允许从 running 进入。上述推导未考虑外部 Kill 与故障重启并发的情形——
+	// 若 Actor 已因显式 Kill 处于 killing（例如正在等待子 Actor 终止），此时再接受重启会使其在子 Actor 终止后被"复活"，显式 Kill 因而丢失
+	if !atomic.CompareAndSwapInt32(&c.state, running, killing) {
+		return
+	}
 	c.restarting = message
 	c.Logger().Debug("receive restart", log.String("path", c.ref.GetPath()), log.String("reason", message.Reason), log.Any("fault", message.Fault), log.String("stack", string(message.Stack)))
 
